@@ -4,7 +4,7 @@ from ..norm import n, P, C, V, ANY, match, find_all
 from . import common, cmpmodel, witness, layout, panics
 
 ID = "C03"
-CONFIGS = {"quick": ["K0", "K7"], "thorough": ["K0", "K1", "K7", "K8", "K13"]}
+CONFIGS = {"quick": ["K0", "K7", "K8"], "thorough": ["K0", "K1", "K7", "K8", "K13", "K19"]}
 META = {
     "explanation": (
         "Static analysis (types, MIR paths, call graph).  Decided at the type level: finalize/finalize_with_options/"
